@@ -311,15 +311,43 @@ def real_disconnect_midframe_case(acc, seed, tag, dispatcher_name):
         k = r.randint(1, size)
         conn.send_partial_stanza(("ib", {"from": "s.whatsapp.net"}, [("dirty", {"type": "groups", "timestamp": "1600000000"}, [], gen.blob(r, 1) * size)], None), k)
         c.wait(lambda: sum(len(x) for x in list(c.probe_low.received)) > n_before, 5)
+        eager = r.random() < 0.5
+        w["eager_reconnect"] = eager
+        if eager:
+            # an impatient application: it asks for the new connection again and again from the moment it has asked for the
+            # disconnect, while the peer is slow to close (the old reader is still waiting for it); the library refuses until the
+            # old connection has been announced as down
+            conn.close_delay = r.choice([0.35, 0.5])
+            acc.count("real_midframe_eager")
+        old_disp = c.net._dispatcher
         c.app.disconnect()
-        if not c.wait(lambda: c.probe_top.event_names().count(D) >= 1, 10):
-            acc.violation("real-midframe:no-disconnected:%s" % dispatcher_name, "a local disconnect while a frame was half received was never announced", w)
-            return
-        t0 = _t.time()
-        while _t.time() - t0 < 5 and any(t.is_alive() for t in c.net_threads):
-            _t.sleep(0.01)
-        _t.sleep(0.05)
-        c.connect_async()
+        early = False
+        if eager:
+            t0 = _t.time()
+            asked = 0
+            # only in the first 100 ms, while the peer certainly still holds its side open, so that the old reader cannot have
+            # announced anything yet: every one of these requests has to be refused. (What happens to a request made between
+            # the announcement and the stack's loop working it off is C16's known finding reconnect-up-before-loop-turn.)
+            while _t.time() - t0 < 0.1 and c.net._dispatcher is old_disp and c.events(D) < 1:
+                c.connect_async()
+                asked += 1
+                _t.sleep(0.004)
+            acc.count("real_midframe_eager_requests", asked)
+            changed = c.net._dispatcher is not old_disp
+            early = changed and c.events(D) < 1 and _t.time() - t0 < conn.close_delay - 0.1
+            w["accepted_before_announcement"] = early
+            if changed and not early:
+                acc.count("real_midframe_eager_ambiguous")     # (asyncore announces at once; or this process was stalled)
+                return
+        if not early:
+            if not c.wait(lambda: c.probe_top.event_names().count(D) >= 1, 10):
+                acc.violation("real-midframe:no-disconnected:%s" % dispatcher_name, "a local disconnect while a frame was half received was never announced", w)
+                return
+            t0 = _t.time()
+            while _t.time() - t0 < 5 and any(t.is_alive() for t in c.net_threads):
+                _t.sleep(0.01)
+            _t.sleep(0.05)
+            c.connect_async()
         if not c.wait(lambda: c.events(A) >= 2, 15):
             acc.violation("real-midframe:no-relogin:%s" % dispatcher_name, "after a disconnect in the middle of an incoming frame the next connection does not log in (server states %s): "
                           "bytes of the dead connection were still in the framing layer" % [x.srv.state for x in srv.conns], w)
